@@ -11,6 +11,7 @@ CK_ULONG vp_out[VP_OUT_N];
 CK_RV vp_rv;
 VP_SOFTHSM_CALLEE_CONTRACTS
 
+#define LOGN 8
 #define NT (SES(TCOUNT) < VP_T3 ? SES(TCOUNT) : VP_T3)
 static int t_has(CK_ATTRIBUTE_TYPE t, CK_ULONG len) { for (CK_ULONG i = 0; i < VP_T3; i++) if (i < NT && T3(i, 0) == t && T3(i, 1) == len) return 1; return 0; }
 static CK_ULONG t_val(CK_ATTRIBUTE_TYPE t, CK_ULONG len, CK_ULONG dflt) { CK_ULONG v = dflt; for (CK_ULONG i = 0; i < VP_T3; i++) if (i < NT && T3(i, 0) == t && T3(i, 1) == len) v = T3(i, 2); return v; }
@@ -30,27 +31,29 @@ static int src_has_bytes(void)
 /* a byte string stored into the new object that is not the output of Token::encrypt (and not empty) */
 static int plain_bytes_stored(void)
 {
-  for (CK_ULONG i = 0; i < VP_LOG_MAX; i++) if (i < CNT(LOG) && LOGF(i, KIND) == E_SET_BYTES && LOGF(i, OBJ) == 2 && LOGF(i, VAL) != 0 && LOGF(i, PROV) != 1) return 1;
+  for (CK_ULONG i = 0; i < LOGN; i++) if (i < CNT(LOG) && LOGF(i, KIND) == E_SET_BYTES && LOGF(i, OBJ) == 2 && LOGF(i, VAL) != 0 && LOGF(i, PROV) != 1) return 1;
   return 0;
 }
 static int bytes_stored(CK_ATTRIBUTE_TYPE t)
 {
-  for (CK_ULONG i = 0; i < VP_LOG_MAX; i++) if (i < CNT(LOG) && LOGF(i, KIND) == E_SET_BYTES && LOGF(i, OBJ) == 2 && LOGF(i, TYPE) == t) return 1;
+  for (CK_ULONG i = 0; i < LOGN; i++) if (i < CNT(LOG) && LOGF(i, KIND) == E_SET_BYTES && LOGF(i, OBJ) == 2 && LOGF(i, TYPE) == t) return 1;
   return 0;
 }
 static int ulong_stored(CK_ATTRIBUTE_TYPE t, CK_ULONG v)
 {
-  for (CK_ULONG i = 0; i < VP_LOG_MAX; i++) if (i < CNT(LOG) && LOGF(i, KIND) == E_SET_ULONG && LOGF(i, OBJ) == 2 && LOGF(i, TYPE) == t && LOGF(i, VAL) == v) return 1;
+  for (CK_ULONG i = 0; i < LOGN; i++) if (i < CNT(LOG) && LOGF(i, KIND) == E_SET_ULONG && LOGF(i, OBJ) == 2 && LOGF(i, TYPE) == t && LOGF(i, VAL) == v) return 1;
   return 0;
 }
 
 #define RV __CPROVER_return_value
+/* the log scans above look at the first LOGN records; the first clause below proves there are never more */
 #define GOOD_ARGS (SES(INIT) && SES(VALID) && !SES(NULL_OUT) && !IN(phNull) && !SES(TOKEN_NULL) && K0 < VP_NOBJ && OBJX(K0, VALID))
 #define NOTHING_CREATED (OUT(created) == 0 && OUT(reg_n) == 0 && CNT(SET) == 0 && CNT(ENCRYPT) == 0)
 
 CK_RV vp_copy(void)
 __CPROVER_requires(VP_FRESH_GHOST && !(TOK(SO) && TOK(USER)) && (!TOK(SO) || SES(RW)) && OUT(created) == 0 && OUT(reg_n) == 0 && OUT(save_n) == 0 && OUT(del_n) == 0)
-__CPROVER_requires(SES(TCOUNT) <= VP_T3 && SES(HOBJ0) != SES(HOBJ1))
+__CPROVER_requires(SES(TCOUNT) <= VP_T3 && SES(HOBJ0) != SES(HOBJ1) && OBJX(0, OTHER_KIND) == 3 && OBJX(1, OTHER_KIND) == 3)
+__CPROVER_ensures(CNT(LOG) <= LOGN)
 __CPROVER_ensures(!GOOD_ARGS ==> (RV != CKR_OK && NOTHING_CREATED))
 /* C01: read access to the source, write access for the copy */
 __CPROVER_ensures((GOOD_ARGS && was_private() && !VP_SES_USER) ==> (RV != CKR_OK && NOTHING_CREATED))
@@ -65,7 +68,7 @@ __CPROVER_ensures((RV != CKR_OK && OUT(created) > 0 && !IN(createNull)) ==> (CNT
 __CPROVER_ensures(OUT(created) <= 1)
 /* success: one object, committed, not destroyed; the source is never written */
 __CPROVER_ensures((RV == CKR_OK) ==> (OUT(created) == 1 && CNT(DESTROY) == 0 && CNT(TX_START) == 1 && CNT(TX_COMMIT) == 1 && CNT(TX_ABORT) == 0))
-__CPROVER_ensures((RV == CKR_OK) ==> (OUT(save_n) == 1 && OUT(save_op) == 0x3 && OUT(save_priv) == (CK_ULONG)new_private() && OUT(save_count) == SES(TCOUNT)))
+__CPROVER_ensures((RV == CKR_OK) ==> (OUT(save_n) == 1 && OUT(save_op) == 0x1 && OUT(save_priv) == (CK_ULONG)new_private() && OUT(save_count) == SES(TCOUNT)))
 /* C11: registered with the copy's own flags */
 __CPROVER_ensures((RV == CKR_OK) ==> (OUT(reg_n) == 1 && OUT(reg_obj) == 2 && OUT(h) == VP_NEW_HANDLE && OUT(reg_slot) == SES(SLOTID)))
 __CPROVER_ensures((RV == CKR_OK) ==> (OUT(reg_token) == (CK_ULONG)new_token() && OUT(reg_priv) == (CK_ULONG)new_private() && OUT(create_token) == (CK_ULONG)new_token()))
